@@ -76,6 +76,12 @@ CHECKS = {
             'modules of the same spec and with an independent Stone->PEP 484 mapping',
             'Held on the executions produced, with one open known finding (type behind a foreign alias named '
             'without import).', '4 C15'),
+    'C19': ('runtime monitoring: the real filter parser/evaluator driven over all truth assignments of generated '
+            'expression trees, and the Api a dump backend receives from stone.cli.main (in-process and real '
+            'subprocess) for generated specs under -f / -w / -b / -a option sets, compared with the model',
+            'Held on the executions produced: surviving routes, visible attributes, trimmed schema, retained '
+            'types and by-name tables as the options select; malformed / unknown inputs reported with exit 1.',
+            '4 C19'),
 }
 
 PENDING = {}
